@@ -87,7 +87,7 @@ def model(c, runs):
         jobs.append(dict(name="liveness: both directions at once", module="Channel", kw={"timeout": 850, "workers": 4},
                          cfg=cfg_text(constants=dict(BASE, UsersA={"a1"}, UsersB={"b1"}, Daemons={"dA_err", "dB_out"},
                                                      OpsA={"sendall"}, OpsB={"sendall_err"}, W0=2, SendN=3, ReadSizes={2}), invariants=[], **LIVE)))
-    res = dc.mc_batch(c, jobs)
+    res = dc.mc_batch(c, jobs, parallel=12)
     # RP: the discard counterexample on the real code (then judged by the trace spec like every other schedule)
     consts = dict(one, SendN=2)
     prog, plan = dc.plan_from_counterexample(res[LEAK], consts, U)
